@@ -403,7 +403,7 @@ class DPRNNBase(RenameParamsMixin, nn.Module):
             layer_outs = []
 
             for direction, (cell, h0, c0) in directions:
-                # apply single direction layer (with dropout)
+                # apply single direction layer
                 out_layer, h, c = self.forward_layer(
                     (
                         x
@@ -432,6 +432,14 @@ class DPRNNBase(RenameParamsMixin, nn.Module):
                 ]
             else:
                 output = torch.cat(layer_outs, dim=2)  # [T, B, P*H]
+
+            if self.dropout and layer < self.num_layers - 1:
+                # as in torch.nn: dropout on the outputs of every layer but the last,
+                # never on the recurrent state
+                if is_packed:
+                    output = [self.dropout_layer(o) for o in output]
+                else:
+                    output = self.dropout_layer(output)
 
         if is_packed:
             packed_data = torch.cat(output, dim=0)  # [TB, P*H]
@@ -533,9 +541,6 @@ class DPRNNBase(RenameParamsMixin, nn.Module):
                     h_next, c_next = cell(x[t], (h_n[t], c_n[t]))
                 else:
                     h_next = cell(x[t], h_n[t])
-
-            if self.dropout:
-                h_next = self.dropout_layer(h_next)
 
             h_n.append(h_next)
             c_n.append(c_next)
